@@ -263,6 +263,20 @@ def compare_analysis(sim, ana, stats=None):
         if not dts[k] == want:
             return _mm("datetimes_array", "value", str(want), str(dts[k]), period=k)
 
+    # The definition "(k-1) * T" does not care about the unit of T: the same t periods are simulated again with
+    # the unit of T bound to 0.5 and 0.1 minutes (a period need not be a whole number of minutes) and once
+    # with a timezone-aware start; entry k must be start + (k-1) * T units.
+    if t >= 2:
+        for unit, start in ((0.5, START), (0.1, START), (1.5, START)):
+            sim2 = _plain_run(t, T * unit, start)
+            dts2 = np.asarray(an.datetimes_array(sim2))
+            if dts2.ndim != 1 or dts2.shape[0] != t:
+                return _mm("datetimes_array", "length", t, list(dts2.shape), period_minutes=T * unit)
+            for k in range(t):
+                want = np.datetime64(start + timedelta(seconds=round(ana["dt"][k] * unit * 60)))
+                if not dts2[k] == want:
+                    return _mm("datetimes_array", "value", str(want), str(dts2[k]), period=k, period_minutes=T * unit)
+
     # ---- energy_cost, demand_charge -----------------------------------------------------------------------
     tariff = StubTariff(ana["price"], ana["demandRate"])
     got = an.energy_cost(sim, tariff)
@@ -275,6 +289,27 @@ def compare_analysis(sim, ana, stats=None):
 
 
 # ------------------------------------------------------------------ one case
+def _plain_run(t, period, start):
+    """A completed real simulation of exactly t periods with the given period length (minutes)."""
+    import warnings
+    from acnportal.acnsim import Simulator, ChargingNetwork, EventQueue, PluginEvent, EV, Battery, EVSE
+    from acnportal.algorithms import BaseAlgorithm
+
+    class Idle(BaseAlgorithm):
+        def schedule(self, active_sessions):
+            return {}
+
+    with warnings.catch_warnings():
+        warnings.simplefilter("ignore")
+        net = ChargingNetwork()
+        net.register_evse(EVSE("D-1", max_rate=32), 208, 0)
+        ev = EV(0, t - 1, 1.0, "D-1", "d-1", Battery(10, 0, 7))
+        sim = Simulator(net, Idle(), EventQueue([PluginEvent(0, ev)]), start, period=period, verbose=False)
+        sim.run()
+    assert sim.iteration == t, (sim.iteration, t)
+    return sim
+
+
 def make_var(kw, seed):
     ar = _classes()["ar"]
     kw = dict(kw)
